@@ -140,6 +140,9 @@ protected:
   Jacobian smallAdj_impl(internal::intseq<_Idx...>) const;
 };
 
+template <typename _Derived>
+constexpr std::size_t BundleTangentBase<_Derived>::BundleSize;
+
 
 template<typename _Derived>
 typename BundleTangentBase<_Derived>::LieAlg
